@@ -178,6 +178,41 @@ async def run_history(ctx, case):
             return None
         returned.append((i, out[1]))
         return out[1]
+    # the resolver with everything switched on (packages from a table that stays the same for the whole history, time conditions
+    # replaced): the trees it returns are built from package / time-condition replacements; editing them must not show in later calls
+    full_table = {"1P": "[1]U[2]", "2P": "[3]O[UB1]", "3P": "[901]X[4]"}
+    full_strings = [t.replace("@", sfx_) for sfx_ in [salt(seed)] for t in (
+        "[UB1]@", "[UB2]@", "[UB3]@", "[1]@U[UB3]", "[UB1]@X[UB2]", "Muss@[UB1]", "Muss@[UB3]U[1] Kann@[UB2]", "[1P]@U[UB3]", "[2P]@", "X@[3P]U[UB2]", "([UB3]@)[1P]"
+    )]
+    full_first = {}
+    full_returned = []
+
+    async def resolve_full(i, why):
+        s = full_strings[i]
+        ctx.evaluation()
+        ctx.count("full_resolver_calls")
+        world = E.World("c11-full", pkg=full_table)
+
+        async def go():
+            E.set_world(world)
+            return await parse_expression_including_unresolved_subexpressions(s, resolve_packages=True, replace_time_conditions=True)
+
+        out = await sched.run_under(None, go)
+        log.append(f"resolve-full#{i}({why})")
+        if out[0] != "ok":
+            fail(f"parse-raises-{type(out[1]).__name__}", f"resolver (packages and time conditions replaced) on {s!r} {describe(out)[:200]}")
+            return None
+        c = canon(out[1])
+        if i not in full_first:
+            full_first[i] = c
+        else:
+            ctx.count("full_resolver_results_compared")
+            if c != full_first[i]:
+                fail("history-dependent-parse", f"resolver (packages and time conditions replaced): {s!r} now gives {show(c)[:250]}, the first call gave {show(full_first[i])[:250]}")
+                return None
+        full_returned.append((i, out[1]))
+        return out[1]
+
     # evaluation results before the history
     world_asg = {k: rng.choice("FUK") for k in G.RC_POOL}
     before = {}
@@ -196,6 +231,18 @@ async def run_history(ctx, case):
                 return
         elif r < 0.16:
             await resolve(rng.choice(ahb_indexes), "random")
+        elif r < 0.26:
+            if full_returned and rng.random() < 0.6:
+                i, tree = rng.choice(full_returned)
+                op, depth = mutate(tree, rng)
+                log.append(f"mutate-full#{i}:{op}@depth{depth}")
+                ctx.count("mutations_of_resolved_trees")
+                await resolve_full(i, "after-mutation")
+                # ... and every other string that contains the same abbreviations
+                for j in rng.sample(range(len(full_strings)), 3):
+                    await resolve_full(j, "after-mutation-of-another-resolved-tree")
+            else:
+                await resolve_full(rng.randrange(len(full_strings)), "random")
         elif r < 0.45 or not returned:
             parse(rng.randrange(len(pool)), "random")
         elif r < 0.9:
@@ -238,6 +285,8 @@ async def run_history(ctx, case):
             return
     for i in ahb_indexes:
         await resolve(i, "final")
+    for i in range(len(full_strings)):
+        await resolve_full(i, "final")
     for i, entry in enumerate(pool):
         s, ast = entry[1], entry[2]
         if ast is not None:
